@@ -5,6 +5,15 @@ HERE = os.path.dirname(os.path.abspath(__file__))
 BASELINE = "cd /repo && /venv/bin/python -m pytest -ra -q -p no:cacheprovider --timeout=900 --continue-on-collection-errors"
 
 CLAIMED = {
+    'C18': dict(
+        design='4.18',
+        text='Kernel, complete histories only: symbolic execution of the real closure cache.function.wrapper under assumed pickle/file contracts decides, for each outcome of pickle.load (valid entry, '
+             'old-format entry, EOFError, UnpicklingError, IndexError, old-format failure) and for caching disabled: a hit returns the stored value after replaying its log without calling func; a miss '
+             'calls func exactly once with caching disabled, dumps (value, log) at offset 0 of the locked file and returns the value; the key digest covers the function key and every positional and '
+             'keyword argument (kwargs through sorted blocks); cache.function derives the function key from module, qualname and version.',
+        note='NOT covered, by the nature of the family: kill/crash at an arbitrary byte, truncated pickles (which exception a cut-off stream raises is ASSUMED), partial overwrite of a longer stale entry, '
+             'flock mutual exclusion between processes, Recursion resumption. Key injectivity relies on the C17 argument (SHA-1 idealised).',
+        technique='contract-based deductive verification: symbolic execution of the real closure against external (pickle, file, lock) contracts; outcomes are ground obligations'),
     'C19': dict(
         design='4.19',
         text='Kernel of expression_v2. BOUNDED (<= 4 indices per term, <= 2 incoming summed indices; index characters and axis lengths symbolic; labelled bounded): _Parser._trace keeps exactly '
@@ -149,7 +158,7 @@ NOT_APPLICABLE = {
     'C02': 'whole-DAG faithful translation into generated numpy programs: no function-level postcondition carries it; would need a denotational semantics of ~150 node classes and of the generated code (DESIGN 4.2)',
     'C03': 'history/non-interference property of a program that exists only as a generated string; no per-function contract expresses it (DESIGN 4.3)',
 }
-PENDING = ['C16', 'C18']
+PENDING = ['C16']
 
 
 def main():
